@@ -474,7 +474,7 @@ impl Prop for OpsProp {
         (mixed_spec(tier.pick(12, 24)), 0u8..RECREATES.len() as u8, any::<u64>(), prop::collection::vec(op_strategy(), 1..=tier.pick(12, 40))).prop_map(|(spec, initial, seed, ops)| OpsCase { spec, initial, seed, ops }).boxed()
     }
     fn cases(&self, tier: Tier) -> u32 {
-        tier.pick(4_800, 100_000)
+        tier.pick(12_000, 100_000)
     }
     fn shards(&self, _tier: Tier) -> u32 {
         16
@@ -539,6 +539,16 @@ impl Prop for OpsProp {
                 };
                 let what = format!("step {step} {name}");
                 stats.eval();
+                if name == "search:decompose" {
+                    let sol = &state.solution;
+                    stats.class(&format!("decompose.input.routes_{}", sol.routes.len().min(4)));
+                    if sol.required.is_empty() && sol.unassigned.is_empty() && sol.locked.is_empty() && !sol.ignored.is_empty() {
+                        stats.class(&format!("decompose.input.only_ignored_pending.routes_{}", sol.routes.len().min(4)));
+                    }
+                    if !sol.locked.is_empty() {
+                        stats.class("decompose.input.has_locked");
+                    }
+                }
                 if std::env::var("VERIF_OPS_TRACE").is_ok() {
                     crate::outln!("TRACE {what}: before {:?} req {:?} ign {:?} una {:?}", placement(&state).iter().map(|p| p.1.clone()).collect::<Vec<_>>(), state.solution.required.iter().map(job_label).collect::<Vec<_>>(), state.solution.ignored.iter().map(job_label).collect::<Vec<_>>(), state.solution.unassigned.keys().map(job_label).collect::<Vec<_>>());
                     if let Some(n) = next.as_ref() {
